@@ -44,7 +44,7 @@ RPC_EXEMPT = {'next_from_generator': 'legacy stub: no server binding and no'
 
 
 def run(ctx: Ctx):
-  for r in (r1, r2, r3, r4, r5, r6, r7, r9, r13, r14, r15, r16, r17, r18, r19, r20, r21, r23, r25):
+  for r in (r1, r2, r3, r4, r5, r6, r7, r9, r13, r14, r15, r16, r17, r18, r19, r20, r21, r23, r25, r27):
     ctx.guard(r)
   from mlmverif.props import c15
   ctx.include('R-C14-22', '"signal exhaustion once ... rather than returning a wrong value": the end of a prefetched stream is a'
@@ -52,6 +52,10 @@ def run(ctx: Ctx):
               ' after the end marker otherwise gets the RETRIABLE "Generator is not set" timeout and the client restarts a'
               ' finished stream', c15.r18, min_instances=4)
   from mlmverif.props import c17 as _c17
+  ctx.include('R-C14-28', '"the object itself stays on the server": the handles of server-side objects are keyed by id alone, so the'
+              ' per-process id counter must not wrap while a handle is in use — IncrementId is at least 8 bytes wide'
+              ' (R-C17-17); a 2-byte counter gives the id of a live remote handle to a new object after 65536 allocations', _c17.r17,
+              min_instances=1)
   ctx.include('R-C14-26', '"calls on a remote object behave like on the local object": a recorded call keeps its arguments in the'
               ' caller\'s order — LazyFn.new neither sorts nor de-duplicates args / kwargs (R-C17-2): keyword order is'
               ' observable by the callee (**kwargs, dict(...))', _c17.r2, min_instances=6)
@@ -1112,11 +1116,37 @@ def r25(ctx: Ctx):
   ctx.floor(rule, 1, n)
 
 
+def r27(ctx: Ctx):
+  rule = 'R-C14-27'
+  ctx.rule(rule, '"evaluating a lazy expression on a server through a client returns the same value ... as evaluating it locally",'
+           ' for every client configuration: CourierClient is a singleton PER CONFIGURATION — the registry hands back an'
+           ' existing client when `__eq__` says so, so `__eq__` compares the whole `configs` (address AND call timeout,'
+           ' heartbeat threshold, batch size ...), not the address alone: a client built with a 30 s deadline would'
+           ' otherwise be the earlier client with its 0.5 s deadline, and a slow call fails where local evaluation succeeds')
+  ci = ctx.repo.cls(CU, 'CourierClient')
+  fi = ci.methods.get('__eq__')
+  if fi is None:
+    raise AnalysisError(f'{rule}: CourierClient.__eq__ not found')
+  compared = {y.attr for c in ast.walk(fi.node) if isinstance(c, ast.Compare) for y in ast.walk(c) if isinstance(y, ast.Attribute)}
+  what = 'CourierClient.__eq__ compares the whole client configuration'
+  if 'configs' in compared:
+    ctx.ok(rule, fi, what, fi.node)
+  else:
+    ctx.fail(rule, fi, what,
+             f'CourierClient.__eq__ compares {sorted(compared)} only: two clients that differ in their other settings are ONE singleton —'
+             ' the second caller silently gets the first caller\'s timeouts', node=fi.node)
+  ctx.floor(rule, 1, 1)
+
+
 from mlmverif.selfcheck import B, OK  # noqa: E402
 
 _S = 'chainables/courier_server.py'
 _U = 'utils/courier_utils.py'
 VARIANTS = [
+    B('clients-equal-by-address-alone', 'utils/courier_utils.py',
+      "    return isinstance(other, CourierClient) and self.configs == other.configs", "    return isinstance(other, CourierClient) and self.address == other.address", 'R-C14-27'),
+    B('id-counter-four-bytes', 'chainables/lazy_fns.py',
+      "_increment_id = IncrementId(id_len=8)", "_increment_id = IncrementId(id_len=4)", 'R-C14-28'),
     B('remote-queue-timeout-defaults-to-the-call-timeout', 'utils/courier_utils.py',
       '    """Async iterates the generator task."""\n    # Create a queue at the worker', '    """Async iterates the generator task."""\n    if timeout is None:\n      timeout = self.call_timeout or None\n    # Create a queue at the worker', 'R-C14-25'),
     B('recorded-kwargs-sorted-by-name', 'chainables/lazy_fns.py',
